@@ -171,6 +171,11 @@ def c13b(F):
                     e = deep_strip(e)
                     if e[0] == "agg" and e[1][0] == "closure":
                         action_defs.add(e[1][1])
+        # the registration itself must not put bytes into the pipe: any send()/write() it makes on the descriptor is the zero-length probe
+        for (pb, pt, pci) in call_sites(F, m, lambda ci: ci.kind == "foreign" and ci.symbol in ("send", "write", "sendto")):
+            ln = [fold(e) for e in fl.term_arg(pb, 2)]
+            res.append((bool(ln) and all(v == 0 for v in ln), "probe-zero-length@%s" % keyname(m0.name),
+                        "a %s() made while registering carries no data (zero-length probe): the reader never sees more bytes than deliveries" % pci.symbol, pt["sp"], {"length": ln}))
         clos = [(cb, csi, crv) for (cb, csi, crv) in closure_constructions(m) if crv["def"] in action_defs]
         if not clos:
             raise AnchorLost("the action closure registered by %s" % m0.name)
